@@ -3,6 +3,7 @@ import math
 
 from hypothesis import strategies as st
 
+from vlib import rivals
 from vlib.core import Part, Violation, Discard, call
 from vlib import exprgen as X
 from vlib.models import ScriptedSampler
@@ -249,7 +250,9 @@ def build_grader(cls, answer, spec, samplers=None, **extra):
     else:
         cfg.update(user_functions=LIBF)
     cfg.update(extra)
-    return cls(**cfg)
+    g = cls(**cfg)
+    rivals.after_build(g)          # vlib/rivals.py: another grader of the same class (50% tolerance, ...) used first
+    return g
 
 
 def grade(g, student, spec):
@@ -321,6 +324,7 @@ def judge_randfunc(spec, rec):
                samples=spec['samples'], failable_evals=spec['failable'],
                user_functions={'f': RandomFunction(), 'h': RandomFunction(input_dim=2)})
     g = FormulaGrader(**cfg)
+    rivals.after_build(g)          # vlib/rivals.py: another FormulaGrader (50% tolerance, 2 samples, ...) used first
     k, r = grade(g, s_str, spec)
     rec.calls()
     # identical rewrites agree at every sample up to rounding (values are O(10), tolerances >= 1e-9); the wrong
